@@ -36,6 +36,9 @@ def tasks(tier, seed):
     for a in range(len(SYMS)):
         for b in range(len(SYMS)):
             out.append({'kind': 'tree', 'prefix': [a, b], 'n': n})
+    # removal points at large offsets (> 256): a long plain prefix followed by every string over a 4-symbol core
+    for k in range(4):
+        out.append({'kind': 'long', 'first': k, 'n': 6 if tier == 'quick' else 7})
     # the wider alphabet (with @, ~, DEL) one symbol shorter; only strings that use one of the extra symbols
     m = len(SYMS) + len(EXTRA)
     for a in range(m):
@@ -137,7 +140,11 @@ def run_task(task, acc):
                 acc.violation(clause, case, detail, sig=clause)
             acc.sample(case)
         return
-    if task['kind'] == 'short':
+    if task['kind'] == 'long':
+        core = [S[0], S[1], S[5], S[2]]          # ESC [ m digit
+        pre = [S[2] * 300, S[8] * 257 + S[0] + S[1] + S[5], S[7] * 1000]
+        strings = (p_ + core[task['first']] + ''.join(t) for p_ in pre for k in range(0, task['n']) for t in itertools.product(core, repeat=k))
+    elif task['kind'] == 'short':
         strings = ['']
         for k in (1,):
             strings += [''.join(t) for t in itertools.product(S, repeat=k)]
